@@ -15,7 +15,7 @@ maps).  It shares no state or function with the model (`Cell2v.SessionData`).
 
 Op lines (strings/keys as hex, values as `raw~nrm` tokens, see harness/c10):
   reset | open f=F | close f=F n=N | req f=F n=N svc=T ntf=0|1 s=SCRIPT |
-  mk h=H at=SVC f=F n=N uid=HEX | on h=H s=SCRIPT | snap |
+  mk h=H at=SVC f=F n=N uid=HEX | on h=H s=SCRIPT | snap | topo m=SVC:STATE,… (members; the other services are not) |
   p.mkf f=F n=N | p.mkb h=H f=F n=N uid=HEX | p.on f=F n=N s=SCRIPT | p.on h=H s=SCRIPT | u.<anything>
   SCRIPT = statements separated by `;` :
   get/K set/K/V bind/UID id push query json keep/H pushto/F/N from/F/N updraw/HEX fromraw/HEX
@@ -144,6 +144,12 @@ def parseOp (ws : List String) : Option (Op Tok) :=
     | some h, some sc => some (.on h sc)
     | _, _ => none
   | some "snap" => some .snap
+  | some "topo" =>
+    let ms := ((kv ws "m").getD "").splitOn "," |>.filterMap fun e =>
+      match e.splitOn ":" with
+      | [n, st] => st.toNat?.map fun k => (hexOfString n, k)
+      | _ => none
+    some (.topo ((cfg.services.map (·.1)).filter fun n => !ms.any (·.1 == n)) ms)
   | some "p.mkf" => (kvConn ws).map .pMkf
   | some "p.mkb" =>
     match kv ws "h", kvConn ws, kv ws "uid" with
@@ -213,6 +219,7 @@ structure Spec where
   next : List (String × Nat) := []
   conns : List ((String × Nat) × Log) := []           -- live connections
   hs : List (String × SB) := []
+  away : List String := []                             -- services currently not in the cluster view (node STATES are not kept: irrelevant)
   deadTouched : Bool := false                          -- a push/query addressed a dead connection since the last snap
   alt : List ((String × Nat) × Log) := []             -- the same logs WITHOUT the pushes of sessions that had queried while
                                                        -- dirty: what the maps would be under defect D16 (only used to name it)
@@ -307,7 +314,8 @@ def specSOp (st : ScSt) (t : String) : ScSt × Exp :=
       else if !b.dirty then (st, ⟨"ok", "C10/push-result-wrong"⟩)
       else
         let b' := { b with dirty := false, risk := false }
-        if !fronts.contains b.front then (upd b' st.sp, ⟨"err", "C10/push-result-wrong"⟩)
+        if !fronts.contains b.front || st.sp.away.contains b.front then
+          (upd b' st.sp, ⟨"err", "C10/push-result-wrong"⟩)
         else match st.sp.conn tgt with
           | none => (upd b' { st.sp with deadTouched := true }, ⟨"ok", "C10/push-result-wrong"⟩)
           | some _ =>
@@ -318,13 +326,13 @@ def specSOp (st : ScSt) (t : String) : ScSt × Exp :=
             (upd b' sp, ⟨"ok", "C10/push-result-wrong"⟩)
     | ["query"] =>
       if b.ns == "" then (st, ⟨"nons", "C10/harness"⟩)
-      else if !fronts.contains b.front then (st, ⟨"err", "C10/query-dead-no-error"⟩)
+      else if !fronts.contains b.front || st.sp.away.contains b.front then (st, ⟨"err", "C10/query-dead-no-error"⟩)
       else match st.sp.conn tgt with
         | none => ({ st with sp := { st.sp with deadTouched := true } }, ⟨"err", "C10/query-dead-no-error"⟩)
         | some log =>
           if log.latest.all (·.2.rep) then
             let got : Log := log.latest.map fun e => (e.1, (⟨e.2.nrm, e.2.nrm, true⟩ : SV))
-            (upd { b with learnt := got ++ b.learnt, risk := b.risk || b.dirty } st.sp, ⟨"ok", "C10/query-not-whole-map"⟩)
+            (upd { b with learnt := got ++ b.learnt, risk := b.risk || b.dirty } st.sp, ⟨"ok", "C10/member-front-unreachable"⟩)
           else
             -- the front map can not be marshalled: the answer carries nothing; outside "JSON-representable"
             (upd { b with front := if (b.pend ++ b.learnt).find hexKeyServerId |>.isSome then b.front else hexStrN } st.sp,
@@ -457,7 +465,7 @@ def specLine (sp : Spec) (line : String) : Spec × String :=
               let noneWith (r : String) : Spec × String :=
                 if obs == "at=none resp=" ++ r then (sp, "ok")
                 else viol sp (d16 (obsField ows "at") (obsField ows "uid") "C10/routing-ignored-pushed-data") op obs s!"wanted at=none resp={r}"
-              match typeOfSvc inst with
+              match (if sp.away.contains inst then none else typeOfSvc inst) with
               | none => noneWith (if ntf then "none" else "err")
               | some ty =>
                 if ty != svc then noneWith "none"
@@ -504,6 +512,9 @@ def specLine (sp : Spec) (line : String) : Spec × String :=
             match cmpResults exps (obsField ows "r") with
             | some (sig, why) => viol sp' sig op obs why
             | none => (sp', "ok")
+      | "topo" =>
+        let ms := ((kv ws "m").getD "").splitOn "," |>.filterMap fun e => (e.splitOn ":").head?
+        ({ sp with away := (fronts ++ ["chat-1", "chat-2"]).filter fun n => !ms.contains n }, "ok")
       | "snap" =>
         let want := "snap " ++ " ".intercalate (fronts.flatMap fun f =>
           ((sp.conns.filter (·.1.1 == f)).map fun e => s!"{f}#{e.1.2}={showSnapMap e.2}"))
